@@ -15,7 +15,7 @@ RULE = ('exhaustive boolean space role(server, client) x marker(own, other role\
         'instantiated with database names of each shape (quick: random matching names; thorough: every matching database name in every combination class, plus unknown names of the same shapes); '
         'oracle = 10-line model of the published rule over (flagged set, advisory names, additions recommended); a case is non-trivial when the audit completed and the flagged set was compared; '
         'distinct = distinct (combination, instantiation, rendering)')
-REQUIRED = {'audits_completed': 100, 'flagged_sets_compared': 100, 'expected_exposed': 20, 'expected_advisory': 20, 'client_role': 20}
+REQUIRED = {'multi_target_blocks': 8, 'audits_completed': 100, 'flagged_sets_compared': 100, 'expected_exposed': 20, 'expected_advisory': 20, 'client_role': 20}
 ASSUMPTIONS = ['with different lists per direction the peer\'s own sending direction decides (client-to-server lists of a client, server-to-client lists of a server); the report can only show warnings on the names it displays (server-to-client lists)', 'shapes are the published ones: prefix chacha20-poly1305; suffixes -cbc, -cbc@openssh.org, -cbc@ssh.com, rijndael-cbc@lysator.liu.se; suffix -etm@openssh.com',
                '"carries the Terrapin warning" = a warning- or failure-level note naming CVE-2023-48795 (the strict-kex pseudo algorithm\'s informational text is not a warning)']
 MANIFEST = {
@@ -62,6 +62,10 @@ def cases(tier, seed):
         for pat in ('etm_cs_only', 'etm_sc_only', 'cbc_cs_only', 'cbc_sc_only', 'cha_cs_only', 'cha_sc_only'):
             for rnd in (('text', 'json') if tier == 'thorough' else ('text',)):
                 cs.append({'kind': 'asym', 'role': role, 'marker': marker, 'pattern': pat, 'cha': rng.sample(cha, 1), 'cbc': rng.sample(cbc, 1), 'etm': rng.sample(etm, 1), 'render': rnd, 'seed': rng.randrange(1 << 30)})
+    # multi-target runs: each target's Terrapin marks follow the rule for that target alone, whatever was scanned before it
+    for i in range(4 if tier == 'quick' else 24):
+        cs.append({'kind': 'multi', 'order': ['exposed', 'protected', 'exposed-cbc', 'plain'] if i % 2 == 0 else ['exposed-cbc', 'plain', 'exposed', 'protected'], 'threads': 1 if i % 4 < 2 else 2, 'render': 'json' if i % 3 == 0 else 'text', 'seed': rng.randrange(1 << 30),
+                   'cha': [], 'cbc': [], 'etm': [], 'role': 'server', 'marker': 'none'})
     # unknown names of the same shapes
     unk = [('cha', 'chacha20-poly1305@example.org'), ('cbc', 'zzfoo256-cbc'), ('cbc', 'zzbar-cbc@ssh.com'), ('etm', 'zz-hmac-sha3-etm@openssh.com')]
     for role, marker in itertools.product(['server', 'client'], ['own', 'none']):
@@ -86,7 +90,55 @@ def is_shape(n):
     return gen.is_terrapin_shape(n)
 
 
+def run_multi(c):
+    from harness import multi
+    specs = {'exposed': (False, ['chacha20-poly1305@openssh.com', 'aes128-ctr'], ['hmac-sha2-256']),
+             'protected': (True, ['chacha20-poly1305@openssh.com', 'aes128-cbc', 'aes128-ctr'], ['hmac-sha2-256-etm@openssh.com', 'umac-64-etm@openssh.com']),
+             'exposed-cbc': (False, ['aes128-cbc', 'aes256-ctr'], ['umac-64-etm@openssh.com', 'hmac-sha2-512']),
+             'plain': (False, ['aes128-cbc', 'aes128-ctr'], ['hmac-sha2-256'])}
+    targets = []
+    for nm in c['order']:
+        marker, enc, mac = specs[nm]
+        k = audit.sym_kex(['curve25519-sha256'] + ([MARK_S] if marker else []), ['ssh-ed25519'], enc, mac)
+        targets.append(multi.Target(nm, {'banner': 'SSH-2.0-OpenSSH_9.1', 'kex': k, 'hostkeys': {}, 'hostkey_default': None, 'gex': None}))
+    try:
+        res = multi.run_multi(targets, c['threads'], c['render'], timeout=120)
+    finally:
+        for t in targets:
+            t.stop()
+    viol, counters = [], {'audits_completed': 0, 'flagged_sets_compared': 0, 'multi_target_blocks': 0}
+    for t in targets:
+        marker, enc, mac = specs[t.name]
+        cha = [n for n in enc if n.startswith('chacha20')]
+        cbc = [n for n in enc if is_shape(n) and not n.startswith('chacha20')]
+        etm = [n for n in mac if n.endswith('-etm@openssh.com')]
+        V = set(cha) | ((set(cbc) | set(etm)) if cbc and etm else set())
+        want = set() if marker else V
+        if c['render'] == 'json':
+            docs = (res.get('docs') or {}).get(t.spec) or []
+            if not docs:
+                viol.append(_v('C04/multi-target-block-missing', 'no JSON entry for a target', target=t.name))
+                continue
+            find = report.json_findings(docs[0])
+        else:
+            blocks = (res.get('blocks') or {}).get(t.spec) or []
+            if not blocks:
+                viol.append(_v('C04/multi-target-block-missing', 'no block for a target', target=t.name))
+                continue
+            find = report.parse_text(blocks[0]).findings()
+        flagged = {n for (cat, n, lvl, txt) in find if CVE in txt and lvl in ('warn', 'fail')}
+        counters['audits_completed'] += 1
+        counters['flagged_sets_compared'] += 1
+        counters['multi_target_blocks'] += 1
+        if flagged != want:
+            viol.append(_v('C04/flagged-%s:multi-target:%s' % ('extra' if flagged - want else 'missing', t.name), 'in a multi-target run a target\'s Terrapin marks differ from the published rule applied to that target', target=t.name, order=c['order'], threads=c['threads'],
+                           got=sorted(flagged), want=sorted(want)))
+    return {'violations': viol, 'counters': counters, 'nontrivial': counters['multi_target_blocks'] > 0, 'sample': {'case': c, 'observed': counters}, 'sample_kind': 'multi'}
+
+
 def run_case(c):
+    if c['kind'] == 'multi':
+        return run_multi(c)
     rng = random.Random(c['seed'])
     names = audit.db_names()
     client = c['role'] == 'client'
